@@ -25,6 +25,7 @@ CLAUSE = CLAUSE + (" Outside the assembler, abandoning the sub-packet in progres
                    "is stored into the programme record again on every path.")
 CLAUSE = CLAUSE + (" vbi_reset_prog_info never writes pi->future (flush_prog_info indexes info_cycle with it afterwards); "
                    "vbi_chsw_reset wipes the network record only under identified == 0.")
+CLAUSE = CLAUSE + (' A change of the call letters re-arms the network name comparison.')
 NOT_DECIDED = ("exactly-once delivery under interleaving, equality of the delivered bytes with the sent ones, content decoding "
                "into vbi_program_info (values).")
 
